@@ -174,6 +174,13 @@ func (e *Engine) inRepo(f *ssa.Function) bool {
 }
 
 func (e *Engine) keyOf(f *ssa.Function) string {
+	if p := f.Parent(); p != nil {
+		// closures: <key of the enclosing function>$<n>
+		name := f.Name()
+		if i := strings.LastIndex(name, "$"); i >= 0 {
+			return e.keyOf(p) + name[i:]
+		}
+	}
 	return shortPath(f.String())
 }
 
@@ -687,4 +694,48 @@ func (e *Engine) sigOfNamed(tn string) *types.Signature {
 	}
 	sig, _ := obj.Type().Underlying().(*types.Signature)
 	return sig
+}
+
+// reachesWriter: can a call to f (transitively, through static and resolved dynamic calls) reach one of the declared
+// writers of a field? Fields with a complete writers declaration (checked by the frame scan) are not modified otherwise.
+func (e *Engine) reachesWriter(f *ssa.Function, writers map[string]bool) bool {
+	seen := map[*ssa.Function]bool{}
+	var dfs func(g *ssa.Function) bool
+	dfs = func(g *ssa.Function) bool {
+		if seen[g] {
+			return false
+		}
+		seen[g] = true
+		if writers[e.keyOf(g)] {
+			return true
+		}
+		for _, h := range e.callees[g] {
+			if dfs(h) {
+				return true
+			}
+		}
+		return false
+	}
+	return dfs(f)
+}
+
+// protectedHeaps: heap arrays with a writers declaration that a call to callee cannot modify.
+func (e *Engine) protectedHeaps(callee *ssa.Function) []string {
+	if callee == nil {
+		return nil
+	}
+	var out []string
+	for _, as := range e.db.Access {
+		if as.Kind != "writers" {
+			continue
+		}
+		w := map[string]bool{}
+		for _, f := range as.Funcs {
+			w[f] = true
+		}
+		if !e.reachesWriter(callee, w) {
+			out = append(out, "H:"+as.Field)
+		}
+	}
+	return out
 }
